@@ -197,6 +197,24 @@ CLAIMED = {
         technique="TLA+ transcription of the feature pipeline checked by TLC against FeatStream; chunk schedules executed on the "
                   "real decoder next to a reference; TLC trace validation of result equality",
         design="4/C07"),
+    "C08": dict(
+        text="SessionImpl models one or two live decoder instances with the hidden state the code carries across utterances "
+             "(stored CMN mode, live feature ring, scorer state) and a result function that reads hidden state where the code "
+             "does; TLC checks that in the intended design hidden state never reaches a result (functional dependency of the "
+             "result on configuration, grammar, dictionary, CMN state at the start, audio; no CMN argument in batch mode) and "
+             "that the pre-fix code violates it (negative control). Every edge of the model's state graph - new / free / "
+             "grammar switch / set_cmn / begin streaming or batch utterance / end, interleaved on two instances - is executed on "
+             "the real library in three audio mappings (including an utterance shorter than one analysis window), plus a fresh "
+             "decoder per tuple and 'ask again' cases; TLC files every final AND mid-utterance hypothesis, segmentation with "
+             "scores, alignment and lattice under its tuple - CMN state read back from the decoder - and requires equal tuples "
+             "to have equal results across all histories, instances and repeated questions.",
+        note="Two grammars, one dictionary, audio excerpts of 0.75-1.3 s, one fixed streaming schedule (chunk invariance is "
+             "C07). Trusted: TLC, recorder. Two genuine defects found and repaired (fix: 3d7fa79 sticky CMN mode, a94a4c9 "
+             "active senone list in the second pass).",
+        technique="TLA+ model of cross-utterance hidden state checked by TLC (functional dependency, negative control); "
+                  "state-graph edge tours replayed on real decoder instances; TLC trace validation of the dependency over all "
+                  "executions",
+        design="4/C08"),
 }
 
 PENDING = "not built yet in this round (planned, see DESIGN.md section 4); no check is registered, so nothing is claimed"
